@@ -145,6 +145,9 @@ def rules(t, u, hist_tbl):
     add("G8/join_grouped_left", "join of a grouped table", (ValueError,), lambda: T >> pdt.group_by(t.a) >> pdt.join(u, t.a == u.a, "inner"))
     add("G8/join_grouped_right", "join with a grouped table", (ValueError,), lambda: T >> pdt.join(u >> pdt.group_by(u.a), t.a == u.a, "inner"))
     add("G8/join_same_origin", "join of a table with its own derivative", (ValueError,), lambda: T >> pdt.join(t >> pdt.mutate(k=t.a), t.a == t.a, "inner"))
+    add("G8/join_union_with_its_right_operand", "join of a union with the table that was its right operand", (ValueError,), lambda: ((T >> pdt.select(t.a)) >> pdt.union(u >> pdt.select(u.a))) >> pdt.join(u, pdt.C.a == u.z, "inner"))
+    add("G8/join_union_operand_on_the_right", "join of a table with a union it is an operand of", (ValueError,), lambda: u >> pdt.join((T >> pdt.select(t.a)) >> pdt.union(u >> pdt.select(u.a)) >> pdt.rename({"a": "ua"}), u.a == pdt.C.ua, "inner"))
+    add("G8/join_union_with_its_left_operand", "join of a union with its left operand", (ValueError,), lambda: ((T >> pdt.select(t.a)) >> pdt.union(u >> pdt.select(u.a)) >> pdt.rename({"a": "ua"})) >> pdt.join(t, pdt.C.ua == t.a, "inner"))
     add("G8/union_grouped", "union of a grouped table", (ValueError,), lambda: (T >> pdt.select(t.a) >> pdt.group_by(t.a)) >> pdt.union(u >> pdt.select(u.a)))
     add("G8/union_different_columns", "union with different columns", (ValueError,), lambda: T >> pdt.union(u))
     add("G8/union_incompatible_types", "union of String with Int column", (TypeError,), lambda: (T >> pdt.select(t.s) >> pdt.rename({"s": "a"})) >> pdt.union(u >> pdt.select(u.a)))
